@@ -73,7 +73,7 @@ func (t *collationSortedTree[K, V]) Delete(key K) bool {
 		return false
 	}
 
-	keyS, colKey := t.cok.Transform(key)
+	_, colKey := t.cok.Transform(key)
 
 	ref := &t.root
 	n := *ref
@@ -83,7 +83,7 @@ func (t *collationSortedTree[K, V]) Delete(key K) bool {
 		if n.tag == nodeKindLeaf {
 			leaf := (*collateLeafNode[V])(n.pointer)
 
-			if bytes.Equal(leaf.getKey(), keyS) {
+			if bytes.Equal(leaf.getTransformKey(), colKey) {
 				*ref = nodeRef{}
 				t.size--
 				return true
@@ -114,7 +114,7 @@ func (t *collationSortedTree[K, V]) Delete(key K) bool {
 		if child.tag == nodeKindLeaf {
 			leaf := (*collateLeafNode[V])(child.pointer)
 
-			if bytes.Equal(leaf.getKey(), keyS) {
+			if bytes.Equal(leaf.getTransformKey(), colKey) {
 				ref.deleteChild(colKey[depth])
 				t.size--
 				return true
@@ -158,12 +158,15 @@ func (t *collationSortedTree[K, V]) Insert(key K, val V) {
 		if ref.tag == nodeKindLeaf {
 			nl := (*collateLeafNode[V])(ref.pointer)
 
-			if bytes.Equal(keyS, nl.getKey()) {
+			// strings the collator cannot tell apart (another normal form, another
+			// case under IgnoreCase) have the same sort key: they are one key, else
+			// the split below would build a node without children
+			leafKey := nl.getTransformKey()
+			if bytes.Equal(colKey, leafKey) {
 				nl.value = val
 				return
 			}
 
-			leafKey := nl.getTransformKey()
 			newNode := nodePools[nodeKind4].Get().(*node4)
 
 			longestPrefix := longestCommonPrefix(leafKey, colKey, depth)
@@ -331,7 +334,7 @@ func (t *collationSortedTree[K, V]) Range(start, end K) iter.Seq2[K, V] {
 // Search searches for element with the given key.
 // It returns whether the key is present (bool) and its value if it is present.
 func (t *collationSortedTree[K, V]) Search(key K) (V, bool) {
-	keyS, colKey := t.cok.Transform(key)
+	_, colKey := t.cok.Transform(key)
 
 	var notFound V
 
@@ -342,7 +345,7 @@ func (t *collationSortedTree[K, V]) Search(key K) (V, bool) {
 		if n.tag == nodeKindLeaf {
 			leaf := (*collateLeafNode[V])(n.pointer)
 
-			if bytes.Equal(leaf.getKey(), keyS) {
+			if bytes.Equal(leaf.getTransformKey(), colKey) {
 				return leaf.value, true
 			}
 			return notFound, false
